@@ -8,6 +8,13 @@
    One lemma per operation shows that the model's step passes the checker and preserves
    [MInv]; the history theorems follow by induction.
 
+   Replies of the terminal to the start-up queries ([OReport], [ODecscusr]) may be read anywhere in
+   a history.  [CInv] says why a late reply does no harm: once a control has been set its
+   "initialised" flag is up and the reply is ignored (section 2b).  [history_nokp] /
+   [history_full_partial] hold of every history, replies included; the "accepted to the end"
+   theorems come in two forms: for histories of calls ([wf_hist]) and for histories with truthful
+   replies ([wf_hist_r], which tracks whether the blink / shape control has been set).
+
    The three facts about the pen path (TermPenSpec.v) are section hypotheses. *)
 From Coq Require Import ZArith List Bool Lia.
 From Tickit Require Import Csi VT TermPenDefs TermPenSpec XtermDefs XtermModeSpec Gen_SgrOnOff.
@@ -109,13 +116,22 @@ Definition vt_rel (ph : phase) (m : xmode) (w : view) : Prop :=
   | Stopped => w_alt w = false /\ w_cv w = true /\ w_mouse w = 0 /\ w_sgrm w = false
   end.
 
+(* [cshape] = the checker compares the cursor shape: only sound when the driver writes DECSCUSR, so
+   it implies the capability (which a late DECRQSS reply may also switch on in mid-history).
+   The last four fields are about the start-up replies (stale once the control has been set):
+   a control that has been set has its "initialised" flag up, so a later reply is ignored; the blink
+   shadow is 0 until the flag goes up (new() zeroes it and only setctl / a reply change it) *)
 Record CInv (kp cshape : bool) (ph : phase) (d : xdrv) (l : lastset) (w : view) : Prop := mkCInv {
-  ci_cshape : cap_cursorshape (x_caps d) = cshape;
+  ci_cshape : cshape = true -> cap_cursorshape (x_caps d) = true;
   ci_shadow : shadow_ok kp l (x_mode d);
   ci_vt : vt_rel ph (x_mode d) w;
   ci_kp : kp = true -> w_kp w = false;
   ci_blink : i_cursorblink (x_init d) = true -> w_blink w = m_cursorblink (x_mode d);
-  ci_shape : i_cursorshape (x_init d) = true -> cshape = true /\ (w_shape w + 1) / 2 = m_cursorshape (x_mode d)
+  ci_shape : i_cursorshape (x_init d) = true -> cshape = true -> (w_shape w + 1) / 2 = m_cursorshape (x_mode d);
+  ci_blink0 : i_cursorblink (x_init d) = false -> m_cursorblink (x_mode d) = false;
+  ci_cvset : l CtlCursorvis <> None -> i_cursorvis (x_init d) = true;
+  ci_blinkset : l CtlCursorblink <> None -> i_cursorblink (x_init d) = true;
+  ci_shapeset : l CtlCursorshape <> None -> i_cursorshape (x_init d) = true
 }.
 
 Definition extra_okb (cshape : bool) (c : ctl) (x : Z) (w : view) : bool :=
@@ -126,14 +142,19 @@ Definition extra_okb (cshape : bool) (c : ctl) (x : Z) (w : view) : bool :=
   end.
 
 Definition set_concl (kp cshape : bool) (ph : phase) (d : xdrv) (l : lastset) (v : vt) (c : ctl) (x : Z) : Prop :=
-  exists d' ts, xt_setctl d c x = (d', ts, true) /\ x_caps d' = x_caps d /\ x_init d' = x_init d /\
+  exists d' ts, xt_setctl d c x = (d', ts, true) /\ x_caps d' = x_caps d /\
     CInv kp cshape ph d' (ls_set l c (ctl_norm c x)) (view_of (vt_run ts v)) /\
     w_sgr (view_of (vt_run ts v)) = w_sgr (view_of v) /\
-    extra_okb cshape c x (view_of (vt_run ts v)) = true.
+    extra_okb cshape c x (view_of (vt_run ts v)) = true /\
+    (* frame: only the blink / shape control changes the terminal's blink / shape *)
+    (c <> CtlCursorblink -> w_blink (view_of (vt_run ts v)) = w_blink (view_of v)) /\
+    (c <> CtlCursorshape -> w_shape (view_of (vt_run ts v)) = w_shape (view_of v)).
+
+Ltac frame_goal := first [ intros _; reflexivity | intros Hn; exfalso; apply Hn; reflexivity ].
 
 Ltac projs :=
   cbn [x_mode x_caps x_init m_altscreen m_cursorvis m_cursorblink m_cursorshape m_mouse m_keypad
-       i_cursorblink i_cursorshape fst snd] in *.
+       i_cursorvis i_cursorblink i_cursorshape i_slrm fst snd] in *.
 
 Lemma bool_range : forall x, (x =? 0) || (x =? 1) = true -> x = 0 \/ x = 1.
 Proof. intros x H. apply orb_true_iff in H. destruct H as [H|H]; apply Z.eqb_eq in H; auto. Qed.
@@ -157,7 +178,8 @@ Ltac vprojs :=
 Ltac open_inv Hinv :=
   let Hcs := fresh "Hcs" in let Hsh := fresh "Hsh" in let Hvt := fresh "Hvt" in
   let Hkp := fresh "Hkp" in let Hbl := fresh "Hbl" in let Hshp := fresh "Hshp" in
-  destruct Hinv as [Hcs Hsh Hvt Hkp Hbl Hshp];
+  let Hbl0 := fresh "Hbl0" in let Hcvs := fresh "Hcvs" in let Hbls := fresh "Hbls" in let Hshs := fresh "Hshs" in
+  destruct Hinv as [Hcs Hsh Hvt Hkp Hbl Hshp Hbl0 Hcvs Hbls Hshs];
   destruct Hsh as (Sa & Scv & Sm & Sb & Ss & Sk & Sco & Srgb & Smr & Skp).
 Ltac absview v :=
   let w := fresh "w" in let Ew := fresh "Ew" in
@@ -166,6 +188,18 @@ Ltac absview v :=
 Ltac shadow_goal :=
   unfold shadow_ok, ls_set; cbn [ctl_eqb ctl_index Nat.eqb ctl_norm ctl_is_bool]; projs.
 
+Ltac flag_goal :=
+  unfold ls_set; cbn [ctl_eqb ctl_index Nat.eqb]; projs;
+  first [ assumption | intros _; reflexivity | intros Hflag; discriminate Hflag ].
+Ltac clear_imps := repeat match goal with H : _ -> _ |- _ => clear H end.
+Ltac cinv_side ph :=
+  lazymatch goal with
+  | |- shadow_ok _ _ _ => try solve [shadow_goal; repeat split; try assumption; try reflexivity; lia]
+  | |- vt_rel _ _ _ =>
+      try solve [destruct ph; [ | | congruence]; clear_imps; cbn [vt_rel] in *; projs; vprojs; intuition congruence]
+  | |- _ => try solve [assumption | flag_goal]
+  end.
+
 Lemma set_alt_ok : forall kp cshape ph d l v x, ph <> Stopped ->
   CInv kp cshape ph d l (view_of v) -> x = 0 \/ x = 1 -> set_concl kp cshape ph d l v CtlAltscreen x.
 Proof.
@@ -173,12 +207,10 @@ Proof.
   destruct d as [caps m ini]. destruct m as [ma mcv mb msh mm mk]. projs.
   unfold set_concl, xt_setctl. projs.
   destruct ma; destruct Hx as [Hx|Hx]; subst x; cbn [nz Z.eqb negb Bool.eqb].
-  all: eexists; eexists; split; [reflexivity|]; split; [reflexivity|]; split; [reflexivity|].
+  all: eexists; eexists; split; [reflexivity|]; split; [reflexivity|].
   all: rewrite ?vt_run_cons, ?vt_run_nil, ?view_vt_dec, ?view_dec_1049.
-  all: absview v; split; [|split; reflexivity].
-  all: unfold with_mode; constructor; projs; try assumption.
-  all: try (shadow_goal; repeat split; try assumption; try reflexivity; lia).
-  all: destruct ph; [ | | congruence]; cbn [vt_rel] in *; projs; vprojs; intuition congruence.
+  all: absview v; split; [|split; [reflexivity|split; [reflexivity|split; frame_goal]]].
+  all: unfold with_mode; constructor; projs; cinv_side ph.
 Qed.
 
 Lemma set_cv_ok : forall kp cshape ph d l v x, ph <> Stopped ->
@@ -186,31 +218,26 @@ Lemma set_cv_ok : forall kp cshape ph d l v x, ph <> Stopped ->
 Proof.
   intros kp cshape ph d l v x Hph Hinv Hx. open_inv Hinv.
   destruct d as [caps m ini]. destruct m as [ma mcv mb msh mm mk]. projs.
-  unfold set_concl, xt_setctl. projs.
+  unfold set_concl, xt_setctl. cbv zeta. projs.
   destruct mcv; destruct Hx as [Hx|Hx]; subst x; cbn [nz Z.eqb negb Bool.eqb].
-  all: eexists; eexists; split; [reflexivity|]; split; [reflexivity|]; split; [reflexivity|].
+  all: eexists; eexists; split; [reflexivity|]; split; [reflexivity|].
   all: rewrite ?vt_run_cons, ?vt_run_nil, ?view_vt_dec, ?view_dec_25.
-  all: absview v; split; [|split; reflexivity].
-  all: unfold with_mode; constructor; projs; try assumption.
-  all: try (shadow_goal; repeat split; try assumption; try reflexivity; lia).
-  all: destruct ph; [ | | congruence]; cbn [vt_rel] in *; projs; vprojs; intuition congruence.
+  all: absview v; split; [|split; [reflexivity|split; [reflexivity|split; frame_goal]]].
+  all: unfold with_mode, with_init; constructor; projs; cinv_side ph.
 Qed.
 
 Lemma set_blink_ok : forall kp cshape ph d l v x, ph <> Stopped ->
   CInv kp cshape ph d l (view_of v) -> x = 0 \/ x = 1 -> set_concl kp cshape ph d l v CtlCursorblink x.
 Proof.
   intros kp cshape ph d l v x Hph Hinv Hx. open_inv Hinv.
-  destruct d as [caps m ini]. destruct m as [ma mcv mb msh mm mk]. projs.
+  destruct d as [caps m ini]. destruct m as [ma mcv mb msh mm mk]. destruct ini as [icv ibl ish isl]. projs.
   unfold set_concl, xt_setctl. projs.
-  destruct (i_cursorblink ini) eqn:Ei;
+  destruct ibl;
   destruct mb; destruct Hx as [Hx|Hx]; subst x; cbn [nz Z.eqb negb Bool.eqb andb].
-  all: eexists; eexists; split; [reflexivity|]; split; [reflexivity|]; split; [reflexivity|].
+  all: eexists; eexists; split; [reflexivity|]; split; [reflexivity|].
   all: rewrite ?vt_run_cons, ?vt_run_nil, ?view_vt_dec, ?view_dec_12.
-  all: absview v; split; [|split; [reflexivity|]].
-  all: try (unfold with_mode; constructor; projs; try assumption).
-  all: try (shadow_goal; repeat split; try assumption; try reflexivity; lia).
-  all: try (destruct ph; [ | | congruence]; cbn [vt_rel] in *; projs; vprojs; intuition congruence).
-  all: try (intros _; reflexivity).
+  all: absview v; split; [|split; [reflexivity|split; [|split; frame_goal]]].
+  all: try (unfold with_mode, with_init; constructor; projs; cinv_side ph).
   all: try (cbn [extra_okb w_blink Z.eqb negb]; try rewrite (Hbl eq_refl); reflexivity).
 Qed.
 
@@ -222,30 +249,24 @@ Proof.
   unfold set_concl, xt_setctl. projs.
   destruct (mm =? x) eqn:Emx.
   - apply Z.eqb_eq in Emx. subst x.
-    eexists; eexists; split; [reflexivity|]; split; [reflexivity|]; split; [reflexivity|].
-    rewrite vt_run_nil. absview v. split; [|split; reflexivity].
-    constructor; projs; try assumption.
-    shadow_goal; repeat split; try assumption; try reflexivity; lia.
+    eexists; eexists; split; [reflexivity|]; split; [reflexivity|].
+    rewrite vt_run_nil. absview v. split; [|split; [reflexivity|split; [reflexivity|split; frame_goal]]].
+    constructor; projs; cinv_side ph.
   - apply Z.eqb_neq in Emx.
     assert (Hmod : x mod 4 = x) by (apply Z.mod_small; lia).
     rewrite Hmod.
     destruct (x =? 0) eqn:Ex0.
     + apply Z.eqb_eq in Ex0. subst x.
-      eexists; eexists; split; [reflexivity|]; split; [reflexivity|]; split; [reflexivity|].
+      eexists; eexists; split; [reflexivity|]; split; [reflexivity|].
       unfold mouse_tokens. rewrite !vt_run_cons, vt_run_nil, !view_vt_dec, view_dec_1006, view_dec_mouse by lia.
-      absview v. split; [|split; reflexivity].
-      unfold with_mode; constructor; projs; try assumption.
-      * shadow_goal; repeat split; try assumption; try reflexivity; lia.
-      * destruct ph; [ | | congruence]; cbn [vt_rel] in *; projs; vprojs; rewrite mfm_0;
-          change (nz 0) with false; intuition congruence.
+      absview v. split; [|split; [reflexivity|split; [reflexivity|split; frame_goal]]].
+      unfold with_mode; constructor; projs; cinv_side ph.
     + apply Z.eqb_neq in Ex0.
-      eexists; eexists; split; [reflexivity|]; split; [reflexivity|]; split; [reflexivity|].
+      eexists; eexists; split; [reflexivity|]; split; [reflexivity|].
       unfold mouse_tokens. rewrite !vt_run_cons, vt_run_nil, !view_vt_dec, view_dec_1006, view_dec_mouse by lia.
-      absview v. split; [|split; reflexivity].
+      absview v. split; [|split; [reflexivity|split; [reflexivity|split; frame_goal]]].
       assert (Hnz : nz x = true) by (unfold nz; apply Z.eqb_neq in Ex0; rewrite Ex0; reflexivity).
-      unfold with_mode; constructor; projs; try assumption.
-      * shadow_goal; repeat split; try assumption; try reflexivity; lia.
-      * destruct ph; [ | | congruence]; cbn [vt_rel] in *; projs; vprojs; rewrite Hnz; intuition congruence.
+      unfold with_mode; constructor; projs; cinv_side ph.
 Qed.
 
 Lemma shape_div : forall x (b : bool), 1 <= x <= 3 -> (x * 2 + (if b then -1 else 0) + 1) / 2 = x.
@@ -254,38 +275,38 @@ Proof.
   destruct Hc as [Hc|[Hc|Hc]]; subst x; destruct b; reflexivity.
 Qed.
 
-Ltac cinv_side ph :=
-  first [ assumption
-        | solve [shadow_goal; repeat split; try assumption; try reflexivity; lia]
-        | solve [destruct ph; [ | | congruence]; cbn [vt_rel] in *; projs; vprojs; intuition congruence]
-        | idtac ].
-
 Lemma set_shape_ok : forall kp cshape ph d l v x, ph <> Stopped ->
   CInv kp cshape ph d l (view_of v) -> 1 <= x <= 3 -> set_concl kp cshape ph d l v CtlCursorshape x.
 Proof.
   intros kp cshape ph d l v x Hph Hinv Hx. open_inv Hinv.
-  destruct d as [caps m ini]. destruct m as [ma mcv mb msh mm mk]. projs.
+  destruct d as [caps m ini]. destruct m as [ma mcv mb msh mm mk]. destruct ini as [icv ibl ish isl]. projs.
   unfold set_concl, xt_setctl. projs.
   assert (Hmod : x mod 4 = x) by (apply Z.mod_small; lia).
   rewrite Hmod.
-  destruct (i_cursorshape ini && (msh =? x)) eqn:Ecur.
-  - apply andb_true_iff in Ecur. destruct Ecur as [Ei Emx]. apply Z.eqb_eq in Emx. subst x.
-    eexists; eexists; split; [reflexivity|]; split; [reflexivity|]; split; [reflexivity|].
-    rewrite vt_run_nil. absview v. destruct (Hshp Ei) as [Hc1 Hc2].
-    split; [|split; [reflexivity|]].
+  destruct (ish && (msh =? x)) eqn:Ecur.
+  - apply andb_true_iff in Ecur. destruct Ecur as [Ei Emx]. apply Z.eqb_eq in Emx. subst x. subst ish.
+    eexists; eexists; split; [reflexivity|]; split; [reflexivity|].
+    rewrite vt_run_nil. absview v.
+    split; [|split; [reflexivity|split; [|split; frame_goal]]].
     + constructor; projs; cinv_side ph.
-    + cbn [extra_okb w_shape]. rewrite Hc2, Z.eqb_refl. apply orb_true_r.
-  - subst cshape. destruct (cap_cursorshape caps) eqn:Ecap.
-    + eexists; eexists; split; [reflexivity|]; split; [reflexivity|]; split; [reflexivity|].
+    + cbn [extra_okb w_shape]. destruct cshape; [|reflexivity].
+      rewrite (Hshp eq_refl eq_refl), Z.eqb_refl. reflexivity.
+  - destruct (cap_cursorshape caps) eqn:Ecap.
+    + eexists; eexists; split; [reflexivity|]; split; [reflexivity|].
       rewrite vt_run_cons, vt_run_nil, view_vt_shape.
-      absview v. split; [|split; [reflexivity|]].
-      * unfold with_mode; constructor; projs; cinv_side ph.
-        intros _. split; [reflexivity|]. apply shape_div; exact Hx.
+      absview v. split; [|split; [reflexivity|split; [|split; frame_goal]]].
+      * unfold with_mode, with_init; constructor; projs; cinv_side ph.
+        { intros _. exact Ecap. }
+        intros _ _. vprojs. apply shape_div; exact Hx.
       * cbn [extra_okb]; vprojs. rewrite shape_div by exact Hx. rewrite Z.eqb_refl. apply orb_true_r.
-    + eexists; eexists; split; [reflexivity|]; split; [reflexivity|]; split; [reflexivity|].
+    + assert (Hcsf : cshape = false).
+      { destruct cshape; [|reflexivity]. specialize (Hcs eq_refl). discriminate Hcs. }
+      subst cshape.
+      eexists; eexists; split; [reflexivity|]; split; [reflexivity|].
       rewrite vt_run_nil.
-      absview v. split; [|split; [reflexivity|]].
-      * unfold with_mode; constructor; projs; cinv_side ph.
+      absview v. split; [|split; [reflexivity|split; [|split; frame_goal]]].
+      * unfold with_mode, with_init; constructor; projs; cinv_side ph.
+        intros _ Hf. discriminate Hf.
       * reflexivity.
 Qed.
 
@@ -297,13 +318,13 @@ Proof.
   destruct d as [caps m ini]. destruct m as [ma mcv mb msh mm mk]. projs. subst mk.
   unfold set_concl, xt_setctl. projs.
   destruct Hx as [Hx|Hx]; subst x; cbn [nz Z.eqb negb Bool.eqb].
-  - eexists; eexists; split; [reflexivity|]; split; [reflexivity|]; split; [reflexivity|].
-    rewrite vt_run_nil. absview v. split; [|split; reflexivity].
+  - eexists; eexists; split; [reflexivity|]; split; [reflexivity|].
+    rewrite vt_run_nil. absview v. split; [|split; [reflexivity|split; [reflexivity|split; frame_goal]]].
     constructor; projs; try assumption.
     shadow_goal; repeat split; try assumption; try reflexivity; try lia. intros _. right. reflexivity.
-  - eexists; eexists; split; [reflexivity|]; split; [reflexivity|]; split; [reflexivity|].
+  - eexists; eexists; split; [reflexivity|]; split; [reflexivity|].
     rewrite vt_run_cons, vt_run_nil, view_vt_kp by (left; reflexivity).
-    absview v. split; [|split; reflexivity].
+    absview v. split; [|split; [reflexivity|split; [reflexivity|split; frame_goal]]].
     constructor; projs; cinv_side ph.
     all: try (intros Hkt; specialize (Hk Hkt); discriminate Hk).
     shadow_goal; repeat split; try assumption; try reflexivity; try lia.
@@ -331,8 +352,8 @@ Proof.
   { unfold ctl_norm. rewrite Hb. fold (bnorm (bnorm x)). fold (bnorm x). apply bnorm_idem. }
   assert (Hex : forall w, extra_okb cshape c (bnorm x) w = extra_okb cshape c x w).
   { intros w. destruct c; try discriminate Hb; cbn [extra_okb]; rewrite ?bnorm_zero; reflexivity. }
-  rewrite Hset, Hnorm in H. destruct H as (d' & ts & H1 & H2 & H3 & H4 & H5 & H6).
-  exists d', ts. rewrite Hex in H6. exact (conj H1 (conj H2 (conj H3 (conj H4 (conj H5 H6))))).
+  rewrite Hset, Hnorm in H. destruct H as (d' & ts & H1 & H2 & H4 & H5 & H6 & H7).
+  exists d', ts. rewrite Hex in H6. exact (conj H1 (conj H2 (conj H4 (conj H5 (conj H6 H7))))).
 Qed.
 
 Lemma setctl_ok : forall kp cshape ph d l v c x, ph <> Stopped ->
@@ -350,6 +371,95 @@ Proof.
     apply Z.leb_le in H1. apply Z.leb_le in H2. lia.
   - apply set_concl_bnorm; [reflexivity|]. apply set_keypad_ok; auto using bnorm_range.
     intros Hkp. specialize (Hk Hkp eq_refl). subst x. reflexivity.
+Qed.
+
+(* ==== 2b. the replies to the start-up queries (DECRPM, DECRQSS for DECSCUSR), read at any time *)
+Lemma modereport_caps : forall d mode value,
+  cap_colon (x_caps (xt_on_modereport d mode value)) = cap_colon (x_caps d) /\
+  cap_rgb8 (x_caps (xt_on_modereport d mode value)) = cap_rgb8 (x_caps d) /\
+  cap_cursorshape (x_caps (xt_on_modereport d mode value)) = cap_cursorshape (x_caps d).
+Proof.
+  intros d mode value. unfold xt_on_modereport.
+  destruct (mode =? 12) eqn:E12; [repeat split|].
+  destruct (mode =? 25) eqn:E25; [repeat split|].
+  destruct (mode =? 69) eqn:E69; repeat split.
+Qed.
+Lemma decscusr_caps : forall d value,
+  cap_colon (x_caps (xt_on_decscusr d value)) = cap_colon (x_caps d) /\
+  cap_rgb8 (x_caps (xt_on_decscusr d value)) = cap_rgb8 (x_caps d).
+Proof. intros d value. split; reflexivity. Qed.
+
+(* a DECRPM reply: mode 25 needs no premise at all (before the control is set the shadow is 1 and a
+   reply can only say 1; afterwards it is stale); mode 12 must tell the terminal's blink state while
+   the application has not set the control; mode 69 and the others do not touch the mode shadow *)
+Ltac reply_side :=
+  first [ assumption
+        | solve [unfold shadow_ok; projs;
+                 repeat match goal with E : ?l ?c = None |- context [?l ?c] => rewrite E end;
+                 repeat split; first [assumption | lia]]
+        | solve [intros _; first [reflexivity | assumption]]
+        | solve [intros Hf; discriminate Hf]
+        | idtac ].
+
+Lemma report_cinv : forall kp cshape ph d l w mode value,
+  CInv kp cshape ph d l w ->
+  (mode = 12 -> l CtlCursorblink = None ->
+     (value = 1 /\ w_blink w = true) \/ (value <> 1 /\ w_blink w = false)) ->
+  CInv kp cshape ph (xt_on_modereport d mode value) l w.
+Proof.
+  intros kp cshape ph d l w mode value Hinv Htrue. open_inv Hinv.
+  destruct d as [caps m ini]. destruct m as [ma mcv mb msh mm mk]. destruct ini as [icv ibl ish isl]. projs.
+  unfold xt_on_modereport. projs.
+  destruct (mode =? 12) eqn:E12.
+  { apply Z.eqb_eq in E12. specialize (Htrue E12).
+    destruct ibl.
+    - rewrite andb_false_r.
+      unfold with_mode, with_init; constructor; projs; reply_side.
+    - specialize (Hbl0 eq_refl). subst mb. rewrite andb_true_r.
+      destruct (l CtlCursorblink) as [xb|] eqn:El.
+      { assert (Hne : Some xb <> None) by discriminate. specialize (Hbls Hne). discriminate Hbls. }
+      destruct (Htrue eq_refl) as [[Hv Hw]|[Hv Hw]].
+      + subst value. cbn [Z.eqb].
+        unfold with_mode, with_init; constructor; projs; reply_side.
+      + apply Z.eqb_neq in Hv. rewrite Hv.
+        unfold with_mode, with_init; constructor; projs; reply_side. }
+  destruct (mode =? 25) eqn:E25.
+  { assert (Hcv : (if (value =? 1) && negb icv then true else mcv) = mcv).
+    { destruct icv; [rewrite andb_false_r; reflexivity|].
+      destruct (l CtlCursorvis) as [xc|] eqn:El.
+      - assert (Hne : Some xc <> None) by discriminate. specialize (Hcvs Hne). discriminate Hcvs.
+      - subst mcv. destruct ((value =? 1) && negb false); reflexivity. }
+    rewrite Hcv.
+    unfold with_mode, with_init; constructor; projs; reply_side. }
+  destruct (mode =? 69) eqn:E69.
+  { unfold with_caps, with_init; constructor; projs; reply_side. }
+  constructor; projs; reply_side.
+Qed.
+
+Lemma shape_of_reply : forall value, 0 <= value <= 6 -> ((value + 1) / 2) mod 4 = (value + 1) / 2.
+Proof.
+  intros value Hv.
+  assert (Hc : value = 0 \/ value = 1 \/ value = 2 \/ value = 3 \/ value = 4 \/ value = 5 \/ value = 6) by lia.
+  destruct Hc as [Hc|[Hc|[Hc|[Hc|[Hc|[Hc|Hc]]]]]]; subst value; reflexivity.
+Qed.
+
+(* the DECRQSS reply for DECSCUSR: in 0..6, and the terminal's shape while the application has not
+   set the control.  It switches the capability on, possibly in mid-history *)
+Lemma decscusr_cinv : forall kp cshape ph d l w value,
+  CInv kp cshape ph d l w -> 0 <= value <= 6 ->
+  (l CtlCursorshape = None -> w_shape w = value) ->
+  CInv kp cshape ph (xt_on_decscusr d value) l w.
+Proof.
+  intros kp cshape ph d l w value Hinv Hv Htrue. open_inv Hinv.
+  destruct d as [caps m ini]. destruct m as [ma mcv mb msh mm mk]. destruct ini as [icv ibl ish isl]. projs.
+  unfold xt_on_decscusr. projs.
+  destruct ish.
+  - unfold with_mode, with_caps, with_init; constructor; projs; reply_side.
+  - destruct (l CtlCursorshape) as [xs|] eqn:El.
+    { assert (Hne : Some xs <> None) by discriminate. specialize (Hshs Hne). discriminate Hshs. }
+    specialize (Htrue eq_refl).
+    unfold with_mode, with_caps, with_init; constructor; projs; reply_side.
+    intros _ _. rewrite Htrue. symmetry. apply shape_of_reply. exact Hv.
 Qed.
 
 (* ==== 3. teardown (= pause = stop) and resume on the view *)
@@ -525,7 +635,7 @@ Qed.
 Lemma modes_check : forall kp cshape d l w, CInv kp cshape Run d l w ->
   ms_eq kp (ms_of_view w) (logical_ms init_ms l) = true.
 Proof.
-  intros kp cshape d l w H. destruct H as [Hcs Hsh Hvt Hkp Hbl Hshp].
+  intros kp cshape d l w H. destruct H as [Hcs Hsh Hvt Hkp Hbl Hshp Hbl0 Hcvs Hbls Hshs].
   destruct (logical_of_shadow _ _ _ Hsh) as (L1 & L2 & L3 & L4 & L5).
   cbn [vt_rel] in Hvt. destruct Hvt as (V1 & V2 & V3 & V4).
   apply ms_eq_intro; cbn [ms_of_view ms_alt ms_curvis ms_mouse ms_sgrmouse ms_keypad]; try congruence.
@@ -563,7 +673,7 @@ Qed.
 Lemma CInv_transfer : forall kp cshape ph ph' d l w w',
   CInv kp cshape ph d l w -> vt_rel ph' (x_mode d) w' -> same_rest w' w -> CInv kp cshape ph' d l w'.
 Proof.
-  intros kp cshape ph ph' d l w w' H Hvt (R1 & R2 & R3). destruct H as [Hcs Hsh Hvt0 Hkp Hbl Hshp].
+  intros kp cshape ph ph' d l w w' H Hvt (R1 & R2 & R3). destruct H as [Hcs Hsh Hvt0 Hkp Hbl Hshp Hbl0 Hcvs Hbls Hshs].
   constructor; try assumption.
   - rewrite R1. exact Hkp.
   - rewrite R2. exact Hbl.
@@ -707,6 +817,10 @@ Record MInv (kp colon rgb8 cshape : bool) (t : term) (s : ostate) : Prop := mkMI
 }.
 
 Definition is_stop (o : mop) : bool := match o with OTeardown | ODestroy => true | _ => false end.
+(* a reply of the terminal to a start-up query (input, not a call of the application) *)
+Definition is_report (o : mop) : bool := match o with OReport _ _ | ODecscusr _ => true | _ => false end.
+(* the arguments are in range, as far as the operation alone tells (whether a REPLY is in range --
+   truthful -- depends on the state: the checker decides it, see [report_truthful]) *)
 Definition op_in_range (o : mop) : Prop :=
   match o with
   | OSet c x => ctl_in_rangeb c x = true
@@ -717,12 +831,12 @@ Definition op_pen_ok (o : mop) : Prop :=
   match o with OSetpen p | OChpen p => pen_in_range p | _ => True end.
 Lemma op_in_range_b : forall o, op_in_range o -> op_in_rangeb o = true.
 Proof.
-  intros o H. destruct o as [c x|c|p|p| | | | |alt]; cbn [op_in_range op_in_rangeb] in *;
+  intros o H. destruct o as [c x|c|p|p| | | | |alt|mode value|value]; cbn [op_in_range op_in_rangeb] in *;
     try reflexivity; try exact H; apply pen_in_range_b; exact H.
 Qed.
 Lemma op_in_rangeb_sound : forall o, op_in_rangeb o = true -> op_in_range o.
 Proof.
-  intros o H. destruct o as [c x|c|p|p| | | | |alt]; cbn [op_in_range op_in_rangeb] in *;
+  intros o H. destruct o as [c x|c|p|p| | | | |alt|mode value|value]; cbn [op_in_range op_in_rangeb] in *;
     try exact I; try exact H; apply pen_in_rangeb_sound; exact H.
 Qed.
 Lemma op_in_range_pen_ok : forall o, op_in_range o -> op_pen_ok o.
@@ -734,14 +848,30 @@ Proof. reflexivity. Qed.
 Definition stop_guard (s : ostate) (o : mop) : bool :=
   os_stopped s && negb (match o with ODestroy | OGet _ => true | _ => false end).
 
+Definition setup_last (alt : bool) (l : lastset) : lastset :=
+  fold_left (fun l cv => ls_set l (fst cv) (ctl_norm (fst cv) (snd cv))) (setup_controls alt) l.
+(* does the operation set control [c]?  the bookkeeping after an (accepted) operation *)
+Definition op_sets (c : ctl) (o : mop) : bool := match o with OSet c' _ => ctl_eqb c' c | _ => false end.
+Definition last_after (o : mop) (l : lastset) : lastset :=
+  match o with OSet c x => ls_set l c (ctl_norm c x) | OSetup alt => setup_last alt l | _ => l end.
+(* frame: only setting the blink / shape control changes the terminal's blink / shape *)
+Definition frame_ok (o : mop) (v v' : vt) : Prop :=
+  (op_sets CtlCursorblink o = false -> md_blink (v_md v') = md_blink (v_md v)) /\
+  (op_sets CtlCursorshape o = false -> md_shape (v_md v') = md_shape (v_md v)).
+Lemma frame_ok_refl : forall o v, frame_ok o v v.
+Proof. intros o v. split; intros _; reflexivity. Qed.
+Lemma frame_ok_rest : forall o v v', same_rest (view_of v') (view_of v) -> frame_ok o v v'.
+Proof. intros o v v' (_ & R2 & R3). split; intros _; [exact R2 | exact R3]. Qed.
+
 Definition step_concl (kp colon rgb8 cshape : bool) (t : term) (s : ostate) (o : mop) : Prop :=
   exists t' ts value, mode_step t o = Some (t', ts, value) /\
    ((check_op_v kp colon rgb8 cshape init_ms s o (vt_run ts (os_vt s)) (is_nil ts) value = (None, 0%nat)
-     /\ ~ op_in_range o)
+     /\ (~ op_in_range o \/ is_report o = true))
     \/ exists s' n,
          check_op_v kp colon rgb8 cshape init_ms s o (vt_run ts (os_vt s)) (is_nil ts) value = (Some s', n) /\
          MInv kp colon rgb8 cshape t' s' /\ os_vt s' = vt_run ts (os_vt s) /\
-         os_stopped s' = os_stopped s || is_stop o).
+         os_stopped s' = os_stopped s || is_stop o /\
+         os_last s' = last_after o (os_last s) /\ frame_ok o (os_vt s) (os_vt s')).
 
 (* ---- the checker, operation by operation, over the view *)
 Lemma check_set_eq : forall kp colon rgb8 cshape s c x v' sil,
@@ -793,14 +923,38 @@ Lemma check_stop_eq : forall kp colon rgb8 cshape s o v' sil value, o = OTeardow
     if ms_eq kp (ms_of_view (view_of v')) init_ms && attrs_eqb (w_sgr (view_of v')) default_attrs
     then (Some (mkOs v' (os_last s) (os_pen s) (os_paused s) true), 0%nat) else (None, 6%nat).
 Proof. intros kp colon rgb8 cshape s o v' sil value [H|H]; subst o; reflexivity. Qed.
-Definition setup_last (alt : bool) (l : lastset) : lastset :=
-  fold_left (fun l cv => ls_set l (fst cv) (ctl_norm (fst cv) (snd cv))) (setup_controls alt) l.
 Lemma check_setup_eq : forall kp colon rgb8 cshape s alt v' sil value,
   check_op_v kp colon rgb8 cshape init_ms s (OSetup alt) v' sil value =
     if (os_paused s || ms_eq kp (ms_of_view (view_of v')) (logical_ms init_ms (setup_last alt (os_last s)))) &&
        attrs_eqb (w_sgr (view_of v')) (v_sgr (os_vt s))
     then (Some (mkOs v' (setup_last alt (os_last s)) (os_pen s) (os_paused s) (os_stopped s)), 0%nat)
     else (None, 7%nat).
+Proof. reflexivity. Qed.
+
+(* the checker's reading of a reply: is it truthful (in range), given the bookkeeping and the VT? *)
+Definition report_truthful (s : ostate) (mode value : Z) : bool :=
+  if mode =? 25 then value =? 1
+  else if mode =? 12 then
+    match os_last s CtlCursorblink with
+    | Some _ => (value =? 1) || (value =? 2)
+    | None => ((value =? 1) && md_blink (v_md (os_vt s))) || ((value =? 2) && negb (md_blink (v_md (os_vt s))))
+    end
+  else true.
+Definition decscusr_truthful (s : ostate) (value : Z) : bool :=
+  (0 <=? value) && (value <=? 6) &&
+  match os_last s CtlCursorshape with
+  | Some _ => true
+  | None => md_shape (v_md (os_vt s)) =? value
+  end.
+Lemma check_report_eq : forall kp colon rgb8 cshape s mode value v' sil val,
+  check_op_v kp colon rgb8 cshape init_ms s (OReport mode value) v' sil val =
+    if negb (report_truthful s mode value) then (None, 0%nat)
+    else if sil then (Some s, 0%nat) else (None, 8%nat).
+Proof. reflexivity. Qed.
+Lemma check_decscusr_eq : forall kp colon rgb8 cshape s value v' sil val,
+  check_op_v kp colon rgb8 cshape init_ms s (ODecscusr value) v' sil val =
+    if negb (decscusr_truthful s value) then (None, 0%nat)
+    else if sil then (Some s, 0%nat) else (None, 8%nat).
 Proof. reflexivity. Qed.
 
 Lemma phase_not_stopped : forall s, os_stopped s = false -> phase_of s <> Stopped.
@@ -817,12 +971,12 @@ Proof.
   2:{ destruct (xt_setctl (t_drv t) c x) as [[d' ts] ret].
       eexists; eexists; eexists. split; [reflexivity|]. left. split.
       - unfold check_op_v. rewrite Hr. reflexivity.
-      - cbn [op_in_range]. rewrite Hr. discriminate. }
+      - left. cbn [op_in_range]. rewrite Hr. discriminate. }
   pose proof (phase_not_stopped s Hns) as Hph.
   assert (Hk' : kp = true -> c = CtlKeypadApp -> x = 0).
   { intros Hkt Hc. subst c. specialize (Hk Hkt). cbn [op_kp_on] in Hk.
     apply negb_false_iff in Hk. apply Z.eqb_eq in Hk. exact Hk. }
-  destruct (setctl_ok _ _ _ _ _ _ _ _ Hph Hcore Hr Hk') as (d' & ts & Hset & Hcaps & Hini & Hcore' & Hsgr & Hextra).
+  destruct (setctl_ok _ _ _ _ _ _ _ _ Hph Hcore Hr Hk') as (d' & ts & Hset & Hcaps & Hcore' & Hsgr & Hextra & Hfb & Hfs).
   rewrite Hset. exists (term_with_drv t d'), ts, (Some 1). split; [reflexivity|]. right.
   rewrite check_set_eq by exact Hr.
   assert (Hm : os_paused s || ms_eq kp (ms_of_view (view_of (vt_run ts (os_vt s))))
@@ -842,7 +996,11 @@ Proof.
     + exact Hca.
     + change (a_faint (w_sgr (view_of (vt_run ts (os_vt s)))) = false). rewrite Hsgr. exact Hfa.
     + change (v_sgr (vt_run ts (os_vt s))) with (w_sgr (view_of (vt_run ts (os_vt s)))). rewrite Hsgr. exact Hsg.
-  - cbn [os_stopped is_stop]. rewrite orb_false_r. reflexivity.
+  - cbn [os_stopped is_stop os_last os_vt last_after]. rewrite orb_false_r.
+    split; [reflexivity|]. split; [reflexivity|].
+    split; cbn [op_sets]; intros Hc.
+    + apply Hfb. intros He. subst c. discriminate Hc.
+    + apply Hfs. intros He. subst c. discriminate Hc.
 Qed.
 
 Lemma step_get : forall kp colon rgb8 cshape t s c,
@@ -853,7 +1011,63 @@ Proof.
   exists t, [], (xt_getctl (t_drv t) c). split; [reflexivity|]. right.
   rewrite check_get_eq. rewrite (get_check kp (os_last s) (t_drv t) c (ci_shadow _ _ _ _ _ _ (mi_core _ _ _ _ _ _ Hinv))).
   cbn [is_nil andb]. exists s, 0%nat. split; [reflexivity|]. split; [exact Hinv|].
-  split; [reflexivity|]. cbn [is_stop]. rewrite orb_false_r. reflexivity.
+  split; [reflexivity|]. cbn [is_stop]. rewrite orb_false_r.
+  split; [reflexivity|]. split; [reflexivity|]. apply frame_ok_refl.
+Qed.
+
+(* ---- a reply is read: nothing is written, nothing the application asked for changes *)
+Lemma MInv_with_drv : forall kp colon rgb8 cshape t s d',
+  MInv kp colon rgb8 cshape t s ->
+  cap_colon (x_caps d') = cap_colon (x_caps (t_drv t)) -> cap_rgb8 (x_caps d') = cap_rgb8 (x_caps (t_drv t)) ->
+  CInv kp cshape (phase_of s) d' (os_last s) (view_of (os_vt s)) ->
+  MInv kp colon rgb8 cshape (term_with_drv t d') s.
+Proof.
+  intros kp colon rgb8 cshape t s d' Hinv Hc1 Hc2 Hcore'.
+  destruct Hinv as [Hco Hrg Hst Hcore Hpl Hpt Hca Hfa Hsg].
+  constructor; cbn [term_with_drv t_drv t_started t_pen]; try assumption.
+  - rewrite Hc1. exact Hco.
+  - rewrite Hc2. exact Hrg.
+Qed.
+
+Lemma step_report : forall kp colon rgb8 cshape t s mode value,
+  MInv kp colon rgb8 cshape t s -> step_concl kp colon rgb8 cshape t s (OReport mode value).
+Proof.
+  intros kp colon rgb8 cshape t s mode value Hinv.
+  unfold step_concl. cbn [mode_step].
+  eexists; eexists; eexists. split; [reflexivity|].
+  rewrite check_report_eq. cbn [is_nil].
+  destruct (report_truthful s mode value) eqn:Etr; cbn [negb].
+  2:{ left. split; [reflexivity|]. right. reflexivity. }
+  right. exists s, 0%nat. split; [reflexivity|]. split; [|split; [reflexivity|]].
+  - destruct (modereport_caps (t_drv t) mode value) as (Hc1 & Hc2 & _).
+    apply MInv_with_drv; [exact Hinv | exact Hc1 | exact Hc2 |].
+    apply report_cinv; [exact (mi_core _ _ _ _ _ _ Hinv)|].
+    intros Hm Hl. subst mode. unfold report_truthful in Etr. cbn [Z.eqb] in Etr. rewrite Hl in Etr.
+    change (w_blink (view_of (os_vt s))) with (md_blink (v_md (os_vt s))).
+    destruct (md_blink (v_md (os_vt s))); cbn [negb] in Etr;
+      rewrite ?andb_true_r, ?andb_false_r, ?orb_false_r in Etr; cbn [orb] in Etr.
+    + left. apply Z.eqb_eq in Etr. split; [exact Etr|reflexivity].
+    + right. apply Z.eqb_eq in Etr. split; [lia|reflexivity].
+  - cbn [is_stop]. rewrite orb_false_r. split; [reflexivity|]. split; [reflexivity|]. apply frame_ok_refl.
+Qed.
+
+Lemma step_decscusr : forall kp colon rgb8 cshape t s value,
+  MInv kp colon rgb8 cshape t s -> step_concl kp colon rgb8 cshape t s (ODecscusr value).
+Proof.
+  intros kp colon rgb8 cshape t s value Hinv.
+  unfold step_concl. cbn [mode_step].
+  eexists; eexists; eexists. split; [reflexivity|].
+  rewrite check_decscusr_eq. cbn [is_nil].
+  destruct (decscusr_truthful s value) eqn:Etr; cbn [negb].
+  2:{ left. split; [reflexivity|]. right. reflexivity. }
+  right. exists s, 0%nat. split; [reflexivity|]. split; [|split; [reflexivity|]].
+  - destruct (decscusr_caps (t_drv t) value) as (Hc1 & Hc2).
+    unfold decscusr_truthful in Etr. apply andb_true_iff in Etr. destruct Etr as [Hrng Hsh].
+    apply andb_true_iff in Hrng. destruct Hrng as [H0 H6]. apply Z.leb_le in H0. apply Z.leb_le in H6.
+    apply MInv_with_drv; [exact Hinv | exact Hc1 | exact Hc2 |].
+    apply decscusr_cinv; [exact (mi_core _ _ _ _ _ _ Hinv) | lia |].
+    intros Hl. rewrite Hl in Hsh. apply Z.eqb_eq in Hsh. exact Hsh.
+  - cbn [is_stop]. rewrite orb_false_r. split; [reflexivity|]. split; [reflexivity|]. apply frame_ok_refl.
 Qed.
 
 (* ==== 7. pause, teardown, destruction, setupterm *)
@@ -862,7 +1076,8 @@ Lemma teardown_facts : forall kp colon rgb8 cshape t s,
   ms_eq kp (ms_of_view (view_of (vt_run (xt_teardown (t_drv t)) (os_vt s)))) init_ms = true /\
   v_sgr (vt_run (xt_teardown (t_drv t)) (os_vt s)) = default_attrs /\
   (forall ph', ph' = Paused \/ ph' = Stopped ->
-     CInv kp cshape ph' (t_drv t) (os_last s) (view_of (vt_run (xt_teardown (t_drv t)) (os_vt s)))).
+     CInv kp cshape ph' (t_drv t) (os_last s) (view_of (vt_run (xt_teardown (t_drv t)) (os_vt s)))) /\
+  same_rest (view_of (vt_run (xt_teardown (t_drv t)) (os_vt s))) (view_of (os_vt s)).
 Proof.
   intros kp colon rgb8 cshape t s Hinv Hns.
   destruct Hinv as [Hco Hrg Hst Hcore Hpl Hpt Hca Hfa Hsg].
@@ -870,7 +1085,7 @@ Proof.
   destruct Hsh as (Sa & Scv & Sm & Sb & Ss & Sk & Sco & Srgb & Smr & Skp).
   pose proof (vt_rel_weaken _ _ _ (ci_vt _ _ _ _ _ _ Hcore)) as Hweak.
   destruct (teardown_view (t_drv t) (os_vt s) Hweak Smr Skp) as (Hst' & Hsg' & Hrest).
-  split; [|split].
+  split; [|split; [|split; [|exact Hrest]]].
   - apply (init_check kp (x_mode (t_drv t))); [exact Hst'|].
     intros Hk. destruct Hrest as (R1 & _). rewrite R1. exact (ci_kp _ _ _ _ _ _ Hcore Hk).
   - exact Hsg'.
@@ -883,7 +1098,7 @@ Lemma step_pause : forall kp colon rgb8 cshape t s,
   MInv kp colon rgb8 cshape t s -> os_stopped s = false -> step_concl kp colon rgb8 cshape t s OPause.
 Proof.
   intros kp colon rgb8 cshape t s Hinv Hns.
-  destruct (teardown_facts _ _ _ _ _ _ Hinv Hns) as (Hms & Hsgr & Hci).
+  destruct (teardown_facts _ _ _ _ _ _ Hinv Hns) as (Hms & Hsgr & Hci & Hrest).
   destruct Hinv as [Hco Hrg Hst Hcore Hpl Hpt Hca Hfa Hsg].
   unfold step_concl. cbn [mode_step]. unfold term_pause.
   eexists; eexists; eexists. split; [reflexivity|]. right.
@@ -893,14 +1108,15 @@ Proof.
     + unfold phase_of; cbn [os_paused os_stopped]. rewrite Hns. apply Hci. left. reflexivity.
     + rewrite Hsgr. reflexivity.
     + unfold phase_of; cbn [os_paused os_stopped]. rewrite Hns. cbn [sgr_rel]. rewrite Hsgr. apply sgr_weak_default.
-  - cbn [os_stopped is_stop]. rewrite orb_false_r. reflexivity.
+  - cbn [os_stopped is_stop os_last os_vt last_after]. rewrite orb_false_r.
+    split; [reflexivity|]. split; [reflexivity|]. apply frame_ok_rest. exact Hrest.
 Qed.
 
 Lemma step_teardown : forall kp colon rgb8 cshape t s,
   MInv kp colon rgb8 cshape t s -> os_stopped s = false -> step_concl kp colon rgb8 cshape t s OTeardown.
 Proof.
   intros kp colon rgb8 cshape t s Hinv Hns.
-  destruct (teardown_facts _ _ _ _ _ _ Hinv Hns) as (Hms & Hsgr & Hci).
+  destruct (teardown_facts _ _ _ _ _ _ Hinv Hns) as (Hms & Hsgr & Hci & Hrest).
   destruct Hinv as [Hco Hrg Hst Hcore Hpl Hpt Hca Hfa Hsg].
   unfold step_concl. cbn [mode_step]. unfold term_teardown. rewrite Hst, Hns. cbn [negb].
   eexists; eexists; eexists. split; [reflexivity|]. right.
@@ -911,7 +1127,8 @@ Proof.
     + reflexivity.
     + apply Hci. right. reflexivity.
     + rewrite Hsgr. reflexivity.
-  - cbn [os_stopped is_stop]. rewrite orb_true_r. reflexivity.
+  - cbn [os_stopped is_stop os_last os_vt last_after]. rewrite orb_true_r.
+    split; [reflexivity|]. split; [reflexivity|]. apply frame_ok_rest. exact Hrest.
 Qed.
 
 Lemma step_destroy : forall kp colon rgb8 cshape t s,
@@ -929,8 +1146,9 @@ Proof.
     cbn [andb]. eexists; eexists. split; [reflexivity|]. split; [|split; [reflexivity|]].
     + constructor; unfold phase_of; cbn [os_vt os_last os_pen os_paused os_stopped sgr_rel]; try assumption.
       rewrite Hns in Hst. exact Hst.
-    + reflexivity.
-  - destruct (teardown_facts _ _ _ _ _ _ Hinv Hns) as (Hms & Hsgr & Hci).
+    + cbn [os_stopped is_stop os_last os_vt last_after].
+      split; [reflexivity|]. split; [reflexivity|]. apply frame_ok_refl.
+  - destruct (teardown_facts _ _ _ _ _ _ Hinv Hns) as (Hms & Hsgr & Hci & Hrest).
     destruct Hinv as [Hco Hrg Hst Hcore Hpl Hpt Hca Hfa Hsg].
     unfold step_concl. cbn [mode_step]. unfold term_destroy, term_teardown. rewrite Hst, Hns. cbn [negb fst snd].
     eexists; eexists; eexists. split; [reflexivity|]. right.
@@ -941,32 +1159,42 @@ Proof.
       * reflexivity.
       * apply Hci. right. reflexivity.
       * rewrite Hsgr. reflexivity.
-    + reflexivity.
+    + cbn [os_stopped is_stop os_last os_vt last_after].
+      split; [reflexivity|]. split; [reflexivity|]. apply frame_ok_rest. exact Hrest.
 Qed.
 
 (* ---- setupterm's settings *)
 Lemma setup_ok : forall cshape ph cvs d l v, ph <> Stopped ->
   CInv false cshape ph d l (view_of v) ->
-  Forall (fun cv => ctl_in_rangeb (fst cv) (snd cv) = true) cvs ->
-  exists d' ts, setup_run d cvs = (d', ts) /\ x_caps d' = x_caps d /\ x_init d' = x_init d /\
+  Forall (fun cv => ctl_in_rangeb (fst cv) (snd cv) = true /\
+                    fst cv <> CtlCursorblink /\ fst cv <> CtlCursorshape) cvs ->
+  exists d' ts, setup_run d cvs = (d', ts) /\ x_caps d' = x_caps d /\
     CInv false cshape ph d'
          (fold_left (fun l cv => ls_set l (fst cv) (ctl_norm (fst cv) (snd cv))) cvs l)
          (view_of (vt_run ts v)) /\
-    w_sgr (view_of (vt_run ts v)) = w_sgr (view_of v).
+    w_sgr (view_of (vt_run ts v)) = w_sgr (view_of v) /\
+    w_blink (view_of (vt_run ts v)) = w_blink (view_of v) /\
+    w_shape (view_of (vt_run ts v)) = w_shape (view_of v).
 Proof.
   intros cshape ph cvs. induction cvs as [|[c x] r IH]; intros d l v Hph Hinv Hall.
-  - exists d, []. cbn [setup_run fold_left]. rewrite vt_run_nil. auto.
-  - inversion Hall as [|cv r' Hr Hall']; subst. cbn [fst snd] in Hr.
+  - exists d, []. cbn [setup_run fold_left]. rewrite vt_run_nil.
+    split; [reflexivity|]. split; [reflexivity|]. split; [exact Hinv|]. split; [reflexivity|]. split; reflexivity.
+  - inversion Hall as [|cv r' Hr Hall']; subst. cbn [fst snd] in Hr. destruct Hr as (Hr & Hnb & Hns).
     assert (Hk : false = true -> c = CtlKeypadApp -> x = 0) by discriminate.
-    destruct (setctl_ok _ _ _ _ _ _ _ _ Hph Hinv Hr Hk) as (d1 & ts1 & Hset & Hcaps & Hini & Hcore1 & Hsgr1 & _).
-    destruct (IH d1 _ (vt_run ts1 v) Hph Hcore1 Hall') as (d2 & ts2 & Hrun & Hcaps2 & Hini2 & Hcore2 & Hsgr2).
+    destruct (setctl_ok _ _ _ _ _ _ _ _ Hph Hinv Hr Hk) as (d1 & ts1 & Hset & Hcaps & Hcore1 & Hsgr1 & _ & Hfb1 & Hfs1).
+    destruct (IH d1 _ (vt_run ts1 v) Hph Hcore1 Hall') as (d2 & ts2 & Hrun & Hcaps2 & Hcore2 & Hsgr2 & Hfb2 & Hfs2).
     exists d2, (ts1 ++ ts2). cbn [setup_run fold_left fst snd]. rewrite Hset, Hrun.
-    rewrite vt_run_app. split; [reflexivity|]. split; [congruence|]. split; [congruence|].
-    split; [exact Hcore2|]. congruence.
+    rewrite vt_run_app. split; [reflexivity|]. split; [congruence|].
+    split; [exact Hcore2|]. split; [congruence|].
+    split; [rewrite Hfb2; exact (Hfb1 Hnb) | rewrite Hfs2; exact (Hfs1 Hns)].
 Qed.
 Lemma setup_controls_in_range : forall alt,
-  Forall (fun cv => ctl_in_rangeb (fst cv) (snd cv) = true) (setup_controls alt).
-Proof. intros alt. destruct alt; unfold setup_controls; cbn [app]; repeat constructor. Qed.
+  Forall (fun cv => ctl_in_rangeb (fst cv) (snd cv) = true /\
+                    fst cv <> CtlCursorblink /\ fst cv <> CtlCursorshape) (setup_controls alt).
+Proof.
+  intros alt. destruct alt; unfold setup_controls; cbn [app];
+    repeat constructor; cbn [fst]; discriminate.
+Qed.
 
 Lemma step_setup : forall kp colon rgb8 cshape t s alt,
   MInv kp colon rgb8 cshape t s -> os_stopped s = false -> kp = false ->
@@ -976,7 +1204,7 @@ Proof.
   destruct Hinv as [Hco Hrg Hst Hcore Hpl Hpt Hca Hfa Hsg].
   pose proof (phase_not_stopped s Hns) as Hph.
   destruct (setup_ok _ _ _ _ _ _ Hph Hcore (setup_controls_in_range alt))
-    as (d' & ts & Hrun & Hcaps & Hini & Hcore' & Hsgr).
+    as (d' & ts & Hrun & Hcaps & Hcore' & Hsgr & Hfb & Hfs).
   unfold step_concl. cbn [mode_step]. rewrite Hrun.
   eexists; eexists; eexists. split; [reflexivity|]. right.
   rewrite check_setup_eq.
@@ -1002,7 +1230,13 @@ Proof.
     + unfold phase_of; cbn [os_paused os_stopped]. fold (phase_of s).
       change (v_sgr (vt_run (ts ++ xt_clear) (os_vt s))) with (w_sgr (view_of (vt_run (ts ++ xt_clear) (os_vt s)))).
       rewrite Hview, Hsgr. exact Hsg.
-  - cbn [os_stopped is_stop]. rewrite orb_false_r. reflexivity.
+  - cbn [os_stopped is_stop os_last os_vt last_after]. rewrite orb_false_r.
+    split; [reflexivity|]. split; [reflexivity|].
+    split; intros _.
+    + change (w_blink (view_of (vt_run (ts ++ xt_clear) (os_vt s))) = w_blink (view_of (os_vt s))).
+      rewrite Hview. exact Hfb.
+    + change (w_shape (view_of (vt_run (ts ++ xt_clear) (os_vt s))) = w_shape (view_of (os_vt s))).
+      rewrite Hview. exact Hfs.
 Qed.
 
 (* ==== 8. pens, resume; every step; histories *)
@@ -1039,7 +1273,11 @@ Qed.
       + unfold phase_of; cbn [os_paused os_stopped]. fold (phase_of s). rewrite Hview. apply CInv_vw_sgr. exact Hcore.
       + unfold phase_of in *; cbn [os_paused os_stopped]. rewrite Hns in *.
         destruct (os_paused s); cbn [sgr_rel] in *; [apply Hw | apply Hm]; exact Hsg.
-    - cbn [os_stopped]. destruct is_set; cbn [is_stop]; rewrite orb_false_r; reflexivity.
+    - cbn [os_stopped os_last os_vt].
+      assert (Hfr : forall o, frame_ok o (os_vt s) (vt_run ts (os_vt s))).
+      { intros o. apply frame_ok_rest. rewrite Hview. unfold same_rest. auto. }
+      destruct is_set; cbn [is_stop last_after]; rewrite orb_false_r;
+        (split; [reflexivity|]; split; [reflexivity|]; apply Hfr).
   Qed.
 
   Lemma step_resume : forall kp colon rgb8 cshape t s,
@@ -1074,7 +1312,9 @@ Qed.
         try assumption; try reflexivity.
       + unfold phase_of; cbn [os_paused os_stopped]. rewrite Hns. exact Hcore'.
       + unfold phase_of; cbn [os_paused os_stopped]. rewrite Hns. exact Hmatch.
-    - cbn [os_stopped is_stop]. rewrite orb_false_r. reflexivity.
+    - cbn [os_stopped is_stop os_last os_vt last_after]. rewrite orb_false_r.
+      split; [reflexivity|]. split; [reflexivity|].
+      apply frame_ok_rest. rewrite Hview. destruct Hrest1 as (R1 & R2 & R3). unfold same_rest. auto.
   Qed.
 
   Lemma step_ok : forall kp colon rgb8 cshape t s o,
@@ -1083,7 +1323,7 @@ Qed.
   Proof.
     intros kp colon rgb8 cshape t s o Hinv Hp Hk Hg.
     unfold stop_guard in Hg.
-    destruct o as [c x|c|p|p| | | | |alt]; cbn [negb] in Hg; rewrite ?andb_true_r in Hg.
+    destruct o as [c x|c|p|p| | | | |alt|mode value|value]; cbn [negb] in Hg; rewrite ?andb_true_r in Hg.
     - apply step_set; assumption.
     - apply step_get; assumption.
     - apply (step_pen kp colon rgb8 cshape t s true p); assumption.
@@ -1094,6 +1334,8 @@ Qed.
     - apply step_destroy; assumption.
     - apply step_setup; try assumption.
       destruct kp; [|reflexivity]. specialize (Hk eq_refl). discriminate Hk.
+    - apply step_report; assumption.
+    - apply step_decscusr; assumption.
   Qed.
 
   Lemma hist_inv : forall kp colon rgb8 cshape ops t s n,
@@ -1125,6 +1367,7 @@ Definition start_ok (colon rgb8 cshape : bool) (t : term) (s : ostate) : Prop :=
   m_mouse (x_mode (t_drv t)) = 0 /\ m_keypad (x_mode (t_drv t)) = false /\
   (i_cursorblink (x_init (t_drv t)) = true ->
      md_blink (v_md (os_vt s)) = m_cursorblink (x_mode (t_drv t))) /\
+  (i_cursorblink (x_init (t_drv t)) = false -> m_cursorblink (x_mode (t_drv t)) = false) /\
   (i_cursorshape (x_init (t_drv t)) = true ->
      cap_cursorshape (x_caps (t_drv t)) = true /\
      (md_shape (v_md (os_vt s)) + 1) / 2 = m_cursorshape (x_mode (t_drv t))) /\
@@ -1156,19 +1399,23 @@ Lemma start_inv : forall kp colon rgb8 cshape t s,
   start_ok colon rgb8 cshape t s -> MInv kp colon rgb8 cshape t s.
 Proof.
   intros kp colon rgb8 cshape t s H.
-  destruct H as (Hst & Hco & Hrg & Hcs & Ma & Mcv & Mm & Mk & Hbl & Hshp & Htp & Hop & Hl & Hpa & Hns & Hms & Hsg).
+  destruct H as (Hst & Hco & Hrg & Hcs & Ma & Mcv & Mm & Mk & Hbl & Hbl0 & Hshp & Htp & Hop & Hl & Hpa & Hns & Hms & Hsg).
   unfold ms_of_vt, init_ms in Hms. injection Hms as V1 V2 V3 V4 V5.
   constructor.
   - exact Hco.
   - exact Hrg.
   - rewrite Hst, Hns. reflexivity.
   - unfold phase_of. rewrite Hns, Hpa. constructor.
-    + exact Hcs.
+    + intros Hc. rewrite Hcs. exact Hc.
     + unfold shadow_ok. rewrite !Hl, Ma, Mcv, Mm, Mk. repeat split; auto; lia.
     + cbn [vt_rel view_of w_alt w_cv w_mouse w_sgrm]. rewrite Ma, Mcv, Mm. auto.
     + intros _. exact V5.
     + exact Hbl.
-    + intros Hi. destruct (Hshp Hi) as [H1 H2]. split; [congruence|exact H2].
+    + intros Hi _. destruct (Hshp Hi) as [H1 H2]. exact H2.
+    + exact Hbl0.
+    + intros Hne. rewrite Hl in Hne. contradiction Hne. reflexivity.
+    + intros Hne. rewrite Hl in Hne. contradiction Hne. reflexivity.
+    + intros Hne. rewrite Hl in Hne. contradiction Hne. reflexivity.
   - intros a v Ha. rewrite Hop in Ha. discriminate Ha.
   - intros a v Ha. rewrite Htp in Ha. discriminate Ha.
   - intros a. rewrite Htp. unfold cache_of. rewrite Hop. reflexivity.
@@ -1177,11 +1424,12 @@ Proof.
     intros a. rewrite Htp. reflexivity.
 Qed.
 
-(* ---- well-sequenced in-range histories *)
+(* ---- well-sequenced in-range histories of CALLS (no replies of the terminal among them: whether
+   a reply is in range depends on the state, see [wf_hist_r] below for histories with replies) *)
 Fixpoint wf_hist (stopped : bool) (ops : list mop) : Prop :=
   match ops with
   | [] => True
-  | o :: r => op_in_range o /\
+  | o :: r => op_in_range o /\ is_report o = false /\
               (stopped = true -> match o with ODestroy | OGet _ => True | _ => False end) /\
               wf_hist (stopped || is_stop o) r
   end.
@@ -1204,17 +1452,135 @@ Fixpoint wf_hist (stopped : bool) (ops : list mop) : Prop :=
     intros _. exact Hk.
   Qed.
 
-  Lemma run_inv : forall kp colon rgb8 cshape ops t s,
-    MInv kp colon rgb8 cshape t s -> wf_hist (os_stopped s) ops -> (kp = true -> existsb op_kp_on ops = false) ->
+  (* the toplevel on a terminal that answers the start-up probes: any replies [pre] (any subset of
+     the queries, any values) are read before setupterm, and replies may also be read at any later
+     point -- [ops] is ANY list of operations, so this is an instance of [history_nokp]; in
+     particular a reply "cursor visible" read after setupterm has hidden the cursor is stale: the
+     shadow stays 0, getctl reads 0, teardown writes CSI ?25h (the checker sees all three) *)
+  Theorem toplevel_reports_nokp : forall colon rgb8 cshape alt pre ops t s,
+    start_ok colon rgb8 cshape t s -> Forall (fun o => is_report o = true) pre ->
+    forall i w, hist_check false colon rgb8 cshape init_ms 0 t s (pre ++ OSetup alt :: ops) <> MBadAt i w.
+  Proof.
+    intros colon rgb8 cshape alt pre ops t s Hstart _.
+    apply history_nokp. exact Hstart.
+  Qed.
+
+  (* ---- well-sequenced in-range histories WITH replies of the terminal, truthful ones: [blink0] /
+     [shape0] = the terminal's blink state / cursor shape at the start (what the start-up queries
+     find); [bset] / [sset] = the application has set the blink / shape control since (then a reply
+     is stale and only has to be well-formed).  A reply to DECRQM 25 says "visible" (power-on state) *)
+  Definition reply_ok (blink0 : bool) (shape0 : Z) (bset sset : bool) (o : mop) : Prop :=
+    match o with
+    | OReport mode value =>
+        (mode = 25 -> value = 1) /\
+        (mode = 12 -> if bset then value = 1 \/ value = 2 else value = (if blink0 then 1 else 2))
+    | ODecscusr value => 0 <= value <= 6 /\ (sset = false -> value = shape0)
+    | _ => True
+    end.
+  Fixpoint wf_hist_r (blink0 : bool) (shape0 : Z) (bset sset stopped : bool) (ops : list mop) : Prop :=
+    match ops with
+    | [] => True
+    | o :: r => op_in_range o /\ reply_ok blink0 shape0 bset sset o /\
+                (stopped = true -> match o with ODestroy | OGet _ => True | _ => False end) /\
+                wf_hist_r blink0 shape0 (bset || op_sets CtlCursorblink o) (sset || op_sets CtlCursorshape o)
+                          (stopped || is_stop o) r
+    end.
+  Lemma wf_hist_wf_r : forall blink0 shape0 ops bset sset stopped,
+    wf_hist stopped ops -> wf_hist_r blink0 shape0 bset sset stopped ops.
+  Proof.
+    intros blink0 shape0 ops. induction ops as [|o r IH]; intros bset sset stopped Hwf; [exact I|].
+    cbn [wf_hist] in Hwf. destruct Hwf as (Hr & Hnrep & Hseq & Hwf').
+    cbn [wf_hist_r]. split; [exact Hr|]. split; [|split; [exact Hseq|apply IH; exact Hwf']].
+    destruct o; try exact I; discriminate Hnrep.
+  Qed.
+
+  (* what the walk knows about the blink / shape bookkeeping and the terminal *)
+  Definition RInv (blink0 : bool) (shape0 : Z) (bset sset : bool) (s : ostate) : Prop :=
+    (bset = true -> os_last s CtlCursorblink <> None) /\
+    (os_last s CtlCursorblink = None -> md_blink (v_md (os_vt s)) = blink0) /\
+    (sset = true -> os_last s CtlCursorshape <> None) /\
+    (os_last s CtlCursorshape = None -> md_shape (v_md (os_vt s)) = shape0).
+
+  Lemma fold_ls_none : forall (cvs : list (ctl * Z)) l c,
+    fold_left (fun l cv => ls_set l (fst cv) (ctl_norm (fst cv) (snd cv))) cvs l c = None -> l c = None.
+  Proof.
+    induction cvs as [|cv r IH]; intros l c H; [exact H|].
+    cbn [fold_left] in H. apply IH in H. unfold ls_set in H.
+    destruct (ctl_eqb (fst cv) c); [discriminate H|exact H].
+  Qed.
+  Lemma last_after_none : forall o l c, last_after o l c = None -> op_sets c o = false /\ l c = None.
+  Proof.
+    intros o l c H. destruct o; cbn [last_after op_sets] in *; try (split; [reflexivity|exact H]).
+    - unfold ls_set in H. destruct (ctl_eqb c0 c); [discriminate H|]. split; [reflexivity|exact H].
+    - unfold setup_last in H. apply fold_ls_none in H. split; [reflexivity|exact H].
+  Qed.
+  Lemma last_after_set : forall o l c, op_sets c o = true -> last_after o l c <> None.
+  Proof.
+    intros o l c H. destruct o; cbn [op_sets] in H; try discriminate H.
+    cbn [last_after]. unfold ls_set. rewrite H. discriminate.
+  Qed.
+
+  Lemma RInv_step : forall blink0 shape0 bset sset s s' o,
+    RInv blink0 shape0 bset sset s ->
+    os_last s' = last_after o (os_last s) -> frame_ok o (os_vt s) (os_vt s') ->
+    RInv blink0 shape0 (bset || op_sets CtlCursorblink o) (sset || op_sets CtlCursorshape o) s'.
+  Proof.
+    intros blink0 shape0 bset sset s s' o (B1 & B2 & S1 & S2) Hl (Fb & Fs).
+    unfold RInv. rewrite Hl. repeat split.
+    - intros Hb Hnone. destruct (last_after_none _ _ _ Hnone) as [Hn1 Hn2].
+      rewrite Hn1, orb_false_r in Hb. exact (B1 Hb Hn2).
+    - intros Hnone. destruct (last_after_none _ _ _ Hnone) as [Hn1 Hn2].
+      rewrite (Fb Hn1). exact (B2 Hn2).
+    - intros Hb Hnone. destruct (last_after_none _ _ _ Hnone) as [Hn1 Hn2].
+      rewrite Hn1, orb_false_r in Hb. exact (S1 Hb Hn2).
+    - intros Hnone. destruct (last_after_none _ _ _ Hnone) as [Hn1 Hn2].
+      rewrite (Fs Hn1). exact (S2 Hn2).
+  Qed.
+
+  Lemma reply_truthful_report : forall blink0 shape0 bset sset s mode value,
+    RInv blink0 shape0 bset sset s -> reply_ok blink0 shape0 bset sset (OReport mode value) ->
+    report_truthful s mode value = true.
+  Proof.
+    intros blink0 shape0 bset sset s mode value (B1 & B2 & _ & _) [H25 H12].
+    unfold report_truthful.
+    destruct (mode =? 25) eqn:E25.
+    { apply Z.eqb_eq in E25. rewrite (H25 E25). reflexivity. }
+    destruct (mode =? 12) eqn:E12; [|reflexivity].
+    apply Z.eqb_eq in E12. specialize (H12 E12).
+    destruct (os_last s CtlCursorblink) as [xb|] eqn:El.
+    - destruct bset.
+      + destruct H12 as [Hv|Hv]; subst value; reflexivity.
+      + subst value. destruct blink0; reflexivity.
+    - destruct bset; [exfalso; exact (B1 eq_refl eq_refl)|].
+      rewrite (B2 eq_refl). subst value. destruct blink0; reflexivity.
+  Qed.
+  Lemma reply_truthful_decscusr : forall blink0 shape0 bset sset s value,
+    RInv blink0 shape0 bset sset s -> reply_ok blink0 shape0 bset sset (ODecscusr value) ->
+    decscusr_truthful s value = true.
+  Proof.
+    intros blink0 shape0 bset sset s value (_ & _ & S1 & S2) [Hrng Hsh].
+    unfold decscusr_truthful.
+    assert (H0 : (0 <=? value) = true) by (apply Z.leb_le; lia).
+    assert (H6 : (value <=? 6) = true) by (apply Z.leb_le; lia).
+    rewrite H0, H6. cbn [andb].
+    destruct (os_last s CtlCursorshape) as [xs|] eqn:El; [reflexivity|].
+    destruct sset; [exfalso; exact (S1 eq_refl eq_refl)|].
+    rewrite (S2 eq_refl), (Hsh eq_refl). apply Z.eqb_refl.
+  Qed.
+
+  Lemma run_inv_r : forall kp colon rgb8 cshape blink0 shape0 ops t s bset sset,
+    MInv kp colon rgb8 cshape t s -> RInv blink0 shape0 bset sset s ->
+    wf_hist_r blink0 shape0 bset sset (os_stopped s) ops -> (kp = true -> existsb op_kp_on ops = false) ->
     exists t' ts s', mode_run t ops = Some (t', ts) /\ MInv kp colon rgb8 cshape t' s' /\
       os_vt s' = vt_run ts (os_vt s) /\ os_stopped s' = os_stopped s || existsb is_stop ops /\
       forall n, hist_check kp colon rgb8 cshape init_ms n t s ops = MOk (n + length ops).
   Proof.
-    intros kp colon rgb8 cshape ops. induction ops as [|o r IH]; intros t s Hinv Hwf Hk.
+    intros kp colon rgb8 cshape blink0 shape0 ops.
+    induction ops as [|o r IH]; intros t s bset sset Hinv Hrinv Hwf Hk.
     - exists t, [], s. cbn [mode_run existsb hist_check length]. rewrite vt_run_nil, orb_false_r.
       split; [reflexivity|]. split; [exact Hinv|]. split; [reflexivity|]. split; [reflexivity|].
       intros n. rewrite Nat.add_0_r. reflexivity.
-    - cbn [wf_hist] in Hwf. destruct Hwf as (Hr & Hseq & Hwf').
+    - cbn [wf_hist_r] in Hwf. destruct Hwf as (Hr & Hrep_ok & Hseq & Hwf').
       assert (Hg : stop_guard s o = false).
       { unfold stop_guard. destruct (os_stopped s) eqn:Es; [|reflexivity].
         specialize (Hseq eq_refl). destruct o; try contradiction; reflexivity. }
@@ -1225,10 +1591,18 @@ Fixpoint wf_hist (stopped : bool) (ops : list mop) : Prop :=
       assert (Hk2 : kp = true -> existsb op_kp_on r = false).
       { intros Hkt. specialize (Hk Hkt). cbn [existsb] in Hk. apply orb_false_iff in Hk. apply Hk. }
       destruct (step_ok _ _ _ _ _ _ _ Hinv Hp Hk1 Hg)
-        as (t1 & ts1 & value & Hstep & [[_ Hno]|(s1 & n1 & Hc & Hinv1 & Hvt1 & Hst1)]).
+        as (t1 & ts1 & value & Hstep &
+            [[Hc0 [Hno|Hrep]]|(s1 & n1 & Hc & Hinv1 & Hvt1 & Hst1 & Hlast1 & Hframe1)]).
       + contradiction.
+      + (* a truthful reply is not out of range *)
+        exfalso. destruct o; try discriminate Hrep.
+        * rewrite check_report_eq, (reply_truthful_report _ _ _ _ _ _ _ Hrinv Hrep_ok) in Hc0.
+          cbn [negb] in Hc0. destruct (is_nil ts1); discriminate Hc0.
+        * rewrite check_decscusr_eq, (reply_truthful_decscusr _ _ _ _ _ _ Hrinv Hrep_ok) in Hc0.
+          cbn [negb] in Hc0. destruct (is_nil ts1); discriminate Hc0.
       + rewrite <- Hst1 in Hwf'.
-        destruct (IH t1 s1 Hinv1 Hwf' Hk2) as (t2 & ts2 & s2 & Hrun & Hinv2 & Hvt2 & Hst2 & Hchk).
+        pose proof (RInv_step _ _ _ _ _ _ _ Hrinv Hlast1 Hframe1) as Hrinv1.
+        destruct (IH t1 s1 _ _ Hinv1 Hrinv1 Hwf' Hk2) as (t2 & ts2 & s2 & Hrun & Hinv2 & Hvt2 & Hst2 & Hchk).
         exists t2, (ts1 ++ ts2), s2. cbn [mode_run]. rewrite Hstep, Hrun.
         split; [reflexivity|]. split; [exact Hinv2|].
         split; [rewrite vt_run_app, <- Hvt1; exact Hvt2|].
@@ -1236,6 +1610,20 @@ Fixpoint wf_hist (stopped : bool) (ops : list mop) : Prop :=
         intros n. cbn [hist_check length].
         change (os_stopped s && negb (match o with ODestroy | OGet _ => true | _ => false end)) with (stop_guard s o).
         rewrite Hg, Hrb. cbn [negb]. rewrite Hstep, Hc, Hchk. f_equal. lia.
+  Qed.
+
+  Lemma RInv_start : forall s, RInv (md_blink (v_md (os_vt s))) (md_shape (v_md (os_vt s))) false false s.
+  Proof. intros s. unfold RInv. repeat split; try discriminate; intros _; reflexivity. Qed.
+
+  Lemma run_inv : forall kp colon rgb8 cshape ops t s,
+    MInv kp colon rgb8 cshape t s -> wf_hist (os_stopped s) ops -> (kp = true -> existsb op_kp_on ops = false) ->
+    exists t' ts s', mode_run t ops = Some (t', ts) /\ MInv kp colon rgb8 cshape t' s' /\
+      os_vt s' = vt_run ts (os_vt s) /\ os_stopped s' = os_stopped s || existsb is_stop ops /\
+      forall n, hist_check kp colon rgb8 cshape init_ms n t s ops = MOk (n + length ops).
+  Proof.
+    intros kp colon rgb8 cshape ops t s Hinv Hwf Hk.
+    apply (run_inv_r kp colon rgb8 cshape _ _ ops t s false false Hinv (RInv_start s)); [|exact Hk].
+    apply wf_hist_wf_r. exact Hwf.
   Qed.
 
   (* well-sequenced in-range histories are accepted in full: the checker never escapes
@@ -1287,12 +1675,12 @@ Fixpoint wf_hist (stopped : bool) (ops : list mop) : Prop :=
     apply (init_check false _ _ (ci_vt _ _ _ _ _ _ Hcore)). discriminate.
   Qed.
 
-  Definition app_op_ok (o : mop) : Prop := op_in_range o /\ is_stop o = false.
+  Definition app_op_ok (o : mop) : Prop := op_in_range o /\ is_stop o = false /\ is_report o = false.
 
   Lemma wf_hist_app : forall app tail, Forall app_op_ok app -> wf_hist false tail -> wf_hist false (app ++ tail).
   Proof.
-    intros app tail Hall Ht. induction Hall as [|o r [Hr Hs] Hall IH]; [exact Ht|].
-    cbn [app wf_hist]. split; [exact Hr|]. split; [discriminate|]. rewrite Hs. exact IH.
+    intros app tail Hall Ht. induction Hall as [|o r (Hr & Hs & Hn) Hall IH]; [exact Ht|].
+    cbn [app wf_hist]. split; [exact Hr|]. split; [exact Hn|]. split; [discriminate|]. rewrite Hs. exact IH.
   Qed.
 
   Theorem toplevel_balanced_nokp : forall colon rgb8 cshape alt app t s,
@@ -1303,10 +1691,84 @@ Fixpoint wf_hist (stopped : bool) (ops : list mop) : Prop :=
   Proof.
     intros colon rgb8 cshape alt app t s Hstart Happ.
     apply (balanced_nokp colon rgb8 cshape); [exact Hstart | |].
-    - unfold toplevel_ops. cbn [wf_hist op_in_range is_stop orb]. split; [exact I|]. split; [discriminate|].
-      apply wf_hist_app; [exact Happ|]. cbn [wf_hist op_in_range is_stop orb]. repeat split; try discriminate; auto.
+    - unfold toplevel_ops. cbn [wf_hist op_in_range is_stop is_report orb]. split; [exact I|]. split; [reflexivity|].
+      split; [discriminate|].
+      apply wf_hist_app; [exact Happ|]. cbn [wf_hist op_in_range is_stop is_report orb].
+      repeat split; try discriminate; auto.
     - unfold toplevel_ops. cbn [existsb is_stop orb]. rewrite existsb_app. cbn [existsb is_stop orb].
       apply orb_true_r.
+  Qed.
+
+  (* ---- the same for histories with (truthful) replies of the terminal anywhere in them *)
+  Theorem history_reports_accepted_nokp : forall colon rgb8 cshape ops t s,
+    start_ok colon rgb8 cshape t s ->
+    wf_hist_r (md_blink (v_md (os_vt s))) (md_shape (v_md (os_vt s))) false false false ops ->
+    hist_check false colon rgb8 cshape init_ms 0 t s ops = MOk (length ops).
+  Proof.
+    intros colon rgb8 cshape ops t s Hstart Hwf.
+    pose proof (start_inv false _ _ _ _ _ Hstart) as Hinv.
+    assert (Hns : os_stopped s = false) by apply Hstart.
+    assert (Hwf2 : wf_hist_r (md_blink (v_md (os_vt s))) (md_shape (v_md (os_vt s))) false false (os_stopped s) ops)
+      by (rewrite Hns; exact Hwf).
+    assert (Hk : false = true -> existsb op_kp_on ops = false) by discriminate.
+    destruct (run_inv_r _ _ _ _ _ _ _ _ _ _ _ Hinv (RInv_start s) Hwf2 Hk) as (t' & ts & s' & _ & _ & _ & _ & Hchk).
+    exact (Hchk 0%nat).
+  Qed.
+  Theorem history_reports_accepted_full_partial : forall colon rgb8 cshape ops t s,
+    start_ok colon rgb8 cshape t s ->
+    wf_hist_r (md_blink (v_md (os_vt s))) (md_shape (v_md (os_vt s))) false false false ops ->
+    sets_keypad_on ops = false ->
+    hist_check true colon rgb8 cshape init_ms 0 t s ops = MOk (length ops).
+  Proof.
+    intros colon rgb8 cshape ops t s Hstart Hwf Hkp.
+    pose proof (start_inv true _ _ _ _ _ Hstart) as Hinv.
+    assert (Hns : os_stopped s = false) by apply Hstart.
+    assert (Hwf2 : wf_hist_r (md_blink (v_md (os_vt s))) (md_shape (v_md (os_vt s))) false false (os_stopped s) ops)
+      by (rewrite Hns; exact Hwf).
+    assert (Hk : true = true -> existsb op_kp_on ops = false) by (intros _; exact Hkp).
+    destruct (run_inv_r _ _ _ _ _ _ _ _ _ _ _ Hinv (RInv_start s) Hwf2 Hk) as (t' & ts & s' & _ & _ & _ & _ & Hchk).
+    exact (Hchk 0%nat).
+  Qed.
+
+  Theorem balanced_reports_nokp : forall colon rgb8 cshape ops t s,
+    start_ok colon rgb8 cshape t s ->
+    wf_hist_r (md_blink (v_md (os_vt s))) (md_shape (v_md (os_vt s))) false false false ops ->
+    existsb is_stop ops = true ->
+    exists t' ts, mode_run t ops = Some (t', ts) /\
+      ms_eqb_nokp (ms_of_vt (vt_run ts (os_vt s))) init_ms = true /\
+      v_sgr (vt_run ts (os_vt s)) = default_attrs.
+  Proof.
+    intros colon rgb8 cshape ops t s Hstart Hwf Hstop.
+    pose proof (start_inv false _ _ _ _ _ Hstart) as Hinv.
+    assert (Hns : os_stopped s = false) by apply Hstart.
+    assert (Hwf2 : wf_hist_r (md_blink (v_md (os_vt s))) (md_shape (v_md (os_vt s))) false false (os_stopped s) ops)
+      by (rewrite Hns; exact Hwf).
+    assert (Hk : false = true -> existsb op_kp_on ops = false) by discriminate.
+    destruct (run_inv_r _ _ _ _ _ _ _ _ _ _ _ Hinv (RInv_start s) Hwf2 Hk)
+      as (t' & ts & s' & Hrun & Hinv' & Hvt & Hst & _).
+    exists t', ts. split; [exact Hrun|].
+    rewrite Hstop, orb_true_r in Hst.
+    destruct Hinv' as [Hco Hrg Hstd Hcore Hpl Hpt Hca Hfa Hsg].
+    unfold phase_of in Hcore, Hsg. rewrite Hst in Hcore, Hsg. cbn [sgr_rel] in Hsg.
+    rewrite <- Hvt. split; [|exact Hsg].
+    apply (init_check false _ _ (ci_vt _ _ _ _ _ _ Hcore)). discriminate.
+  Qed.
+
+  (* the toplevel on a terminal that answers the probes: replies [pre], setupterm, the application's
+     calls with further replies among them, tickit_destroy -- when the replies are truthful the run
+     goes through and leaves the terminal in its initial modes with the default rendition *)
+  Theorem toplevel_reports_balanced_nokp : forall colon rgb8 cshape alt pre app t s,
+    start_ok colon rgb8 cshape t s ->
+    wf_hist_r (md_blink (v_md (os_vt s))) (md_shape (v_md (os_vt s))) false false false
+              (pre ++ toplevel_ops alt app) ->
+    exists t' ts, mode_run t (pre ++ toplevel_ops alt app) = Some (t', ts) /\
+      ms_eqb_nokp (ms_of_vt (vt_run ts (os_vt s))) init_ms = true /\
+      v_sgr (vt_run ts (os_vt s)) = default_attrs.
+  Proof.
+    intros colon rgb8 cshape alt pre app t s Hstart Hwf.
+    apply (balanced_reports_nokp colon rgb8 cshape); [exact Hstart | exact Hwf |].
+    unfold toplevel_ops. rewrite existsb_app. cbn [existsb is_stop orb]. rewrite existsb_app.
+    cbn [existsb is_stop orb]. rewrite !orb_true_r. reflexivity.
   Qed.
 
 End WithPenFacts.
@@ -1352,3 +1814,52 @@ Proof. vm_compute. reflexivity. Qed.
 Example sample_history_keypad :
   hist_check true false false false init_ms 0 fresh_term fresh_ostate sample_history = MBadAt 2 4.
 Proof. vm_compute. reflexivity. Qed.
+
+(* ---- the terminal answers the start-up probes late: setupterm hides the cursor, THEN the replies
+   "cursor visible" (DECRPM 25 ; 1), "not blinking" (DECRPM 12 ; 2) and DECSCUSR 0 are read.  They
+   are stale / truthful, the checker accepts them (in range, silent), getctl reads 0 for the cursor
+   visibility, pause / resume and teardown are judged against "cursor hidden": all eight pass *)
+Definition late_replies_history : list mop :=
+  [OSetup true; OReport 25 1; OReport 12 2; ODecscusr 0; OGet CtlCursorvis; OPause; OResume; OTeardown].
+Example late_replies_ok :
+  hist_check false false false false init_ms 0 fresh_term fresh_ostate late_replies_history = MOk 8.
+Proof. vm_compute. reflexivity. Qed.
+(* what is judged there: after the stale reply the shadow still says "hidden", and teardown switches
+   the cursor back on *)
+Example late_replies_shadow :
+  match mode_run fresh_term [OSetup true; OReport 25 1] with
+  | Some (t', _) => xt_getctl (t_drv t') CtlCursorvis = Some 0 /\ In (dec_mode 25 true) (xt_teardown (t_drv t'))
+  | None => False
+  end.
+Proof. vm_compute. split; [reflexivity|]. right. right. left. reflexivity. Qed.
+(* replies before setupterm, the usual order *)
+Example early_replies_ok :
+  hist_check false false false false init_ms 0 fresh_term fresh_ostate
+    [OReport 69 2; OReport 25 1; OReport 12 2; ODecscusr 0; OSetup true; OSet CtlCursorblink 1;
+     OSet CtlCursorshape 2; OGet CtlCursorshape; OPause; OResume; OTeardown; ODestroy] = MOk 12.
+Proof. vm_compute. reflexivity. Qed.
+(* an untruthful reply is out of range, not a failure *)
+Example untruthful_reply_out_of_range :
+  hist_check false false false false init_ms 0 fresh_term fresh_ostate [OSetup true; OReport 12 1] = MOutOfRange 1.
+Proof. vm_compute. reflexivity. Qed.
+
+(* why [start_ok] asks for a zero blink shadow while the blink flag is down (new() zeroes both, and
+   the shadow changes only together with the flag going up): from a state with the flag down and the
+   shadow up, the truthful reply "not blinking" raises the flag and leaves the shadow at 1, and the
+   next setctl(CURSORBLINK, 1) is taken for redundant *)
+Definition odd_blink_term : term :=
+  mkTerm (mkDrv (mkCaps false false false false) (mkMode false true true 0 0 false) (mkInit false false false false))
+         true empty_pen 25 80.
+Example odd_blink_start_fails :
+  hist_check false false false false init_ms 0 odd_blink_term fresh_ostate
+    [OReport 12 2; OSet CtlCursorblink 1] = MBadAt 1 1.
+Proof. vm_compute. reflexivity. Qed.
+
+(* the two histories above are well-sequenced with truthful replies ([wf_hist_r]): the premises of
+   [history_reports_accepted_nokp] are satisfiable by histories with replies before and after the
+   controls are set *)
+Example late_replies_wf : wf_hist_r false 0 false false false late_replies_history.
+Proof.
+  unfold late_replies_history. cbn [wf_hist_r op_in_range reply_ok op_sets is_stop orb ctl_eqb ctl_index Nat.eqb].
+  repeat split; try discriminate; try lia; auto.
+Qed.
